@@ -20,6 +20,7 @@ import (
 	"sync"
 	"time"
 
+	"github.com/anishathalye/porcupine"
 	crypto "github.com/onflow/crypto"
 	"github.com/onflow/crypto/zzverif/vsched"
 
@@ -425,6 +426,43 @@ type callRec struct {
 	Out      string
 }
 
+// porcupineSays is an independent verdict on the same history by porcupine v1.3.0 (its own search
+// over the same sequential model): a cross-check of the brute-force search below. Intervals are
+// closed on both sides in both checkers.
+func porcupineSays(f *fixture, pre []int, calls []callRec) bool {
+	pm := porcupine.Model{
+		Init: func() interface{} {
+			m0 := &model{shares: map[int]string{}}
+			for _, o := range pre {
+				ops[o].Mod(f, m0)
+			}
+			return m0
+		},
+		Step: func(state, input, output interface{}) (bool, interface{}) {
+			m := state.(*model).clone()
+			out := ops[input.(int)].Mod(f, m)
+			return out == output.(string), m
+		},
+		Equal: func(a, b interface{}) bool {
+			x, y := a.(*model), b.(*model)
+			if x.cached != y.cached || len(x.shares) != len(y.shares) {
+				return false
+			}
+			for k, v := range x.shares {
+				if w, ok := y.shares[k]; !ok || w != v {
+					return false
+				}
+			}
+			return true
+		},
+	}
+	var po []porcupine.Operation
+	for _, c := range calls {
+		po = append(po, porcupine.Operation{ClientId: c.Thread % 100, Input: c.Op, Call: int64(c.Inv), Output: c.Out, Return: int64(c.Res)})
+	}
+	return porcupine.CheckOperations(pm, po)
+}
+
 // linearizable searches a total order consistent with program order and real time that the model explains.
 func linearizable(f *fixture, pre []int, calls []callRec) (bool, []int) {
 	n := len(calls)
@@ -484,6 +522,7 @@ type progResult struct {
 	Outcomes   int      `json:"outcomes"`
 	Violations []violRec `json:"violations,omitempty"`
 	Replayed   int      `json:"replayed"`
+	CrossChecked int `json:"cross_checked_with_porcupine,omitempty"`
 	Nondet       int `json:"nondeterministic_under_fixed_schedule,omitempty"`
 	Retries      int `json:"retries,omitempty"`
 	Unreplayable int `json:"unreplayable_prefixes,omitempty"`
@@ -502,6 +541,7 @@ var yieldFilter = func(loc string) bool { return strings.HasPrefix(loc, "bls_thr
 
 func runProgram(f *fixture, p program, bound, maxExec int) progResult {
 	res := progResult{Prog: p.ID, Desc: p.String()}
+	crossN := 0
 	outcomes := map[string]bool{}
 	var calls []callRec
 	var obj crypto.ThresholdSignatureParticipant
@@ -568,6 +608,15 @@ func runProgram(f *fixture, p program, bound, maxExec int) progResult {
 			return
 		}
 		ok, _ := linearizable(f, p.Pre, all)
+		// cross-check of the oracle itself on a deterministic stride of executions and on every
+		// execution judged non-linearizable
+		if crossN++; !ok || crossN%7 == 0 {
+			if pv := porcupineSays(f, p.Pre, all); pv != ok {
+				fmt.Fprintf(os.Stderr, "HARNESS-ERROR: the brute-force linearizability search says %v, porcupine says %v for %s: %v\n", ok, pv, p, hist(all))
+				os.Exit(2)
+			}
+			res.CrossChecked++
+		}
 		if !ok {
 			v("not-linearizable:"+progClass(p), "no sequential order of the calls consistent with real-time order explains the observed return values", all)
 		}
@@ -744,6 +793,7 @@ func main() {
 				run.Add("transitions", int64(r.Points))
 				run.Add("programs", 1)
 				run.Add("traces_validated_against_impl", int64(r.Replayed))
+				run.Add("histories_cross_checked_with_porcupine", int64(r.CrossChecked))
 				if r.Nondet+r.Retries+r.Unreplayable > 0 {
 					run.Add("programs_not_deterministic_under_a_fixed_schedule", int64(r.Nondet))
 					run.Add("schedule_prefix_retries", int64(r.Retries))
